@@ -338,6 +338,7 @@ def finish(prop, tier, seed, obs, results, bres, wall):
             if kentry is not None:
                 status = "known-finding"
                 known_reported.append((kentry, oid, label))
+                n_obl -= 1          # a refuted obligation listed as a known finding is reported separately, not claimed
             else:
                 status = "refuted"
                 for v in bad:
